@@ -169,6 +169,17 @@ func nativeRun(pkgPath string, ws []Witness, harnessNames []string, race bool, t
 	cmd := exec.Command("go", args...)
 	cmd.Dir = repoDir
 	cmd.Env = append(os.Environ(), "GOFLAGS=-mod=mod", "GOPROXY=off", "GOSUMDB=off", "GOTOOLCHAIN=local", "VP_WITNESSES="+wfile)
+	if rel == "" {
+		// harnesses of package main judge the output of the real executable: build it (no overlay)
+		bin := filepath.Join(tmp, "gophersat")
+		b := exec.Command("go", "build", "-o", bin, ".")
+		b.Dir = repoDir
+		b.Env = cmd.Env
+		if out, err := b.CombinedOutput(); err != nil {
+			return nil, string(out), fmt.Errorf("cannot build the executable: %v", err)
+		}
+		cmd.Env = append(cmd.Env, "VP_GOPHERSAT_BIN="+bin)
+	}
 	var out bytes.Buffer
 	cmd.Stdout = &out
 	cmd.Stderr = &out
